@@ -141,3 +141,18 @@ _p('C19', secs=(30, 480), runs=(100000, 10000000), mix=(4, 8),
     real=_SESS_REAL + ['Session::process / enforce / sequence_check / compid_check'], stub=_SESS_STUB, assumptions=_SESS_ASSUME + ['decode strictness itself (unknown tags, malformed values) belongs to the codec properties, which are not claimed: only bad CheckSum and a missing mandatory field are used as undecodable inputs'],
     level_text='seeded exploration; oracle per message: delivered only if in sequence or lower with PossDupFlag=Y and OrigSendingTime not after SendingTime; higher => not delivered, ResendRequest from the expected number (unless one is pending), session not ended; lower without PossDup or wrong CompIDs under enforcement => Logout on the wire and session ended; undecodable => never delivered and Reject or Logout',
     level_note='trusted: harness codec; violation classes are kept separate so one finding does not mask another')
+
+_p('C22', secs=(30, 480), runs=(100000, 10000000), mix=(4, 8),
+    title='Heartbeat and test-request supervision follows the protocol',
+    technique='deterministic simulation of time: real Timer<Session> thread, heartbeat_service, FIXReader/send_process time stamps on the simulated clock (discrete-event), seeded timelines of peer traffic, application sends and silences placed around the H, H+20% and tick boundaries; oracle over the timestamped wire log',
+    rule='one evaluation = one seeded timeline with HeartBtInt H in {1,2,3,5,6,10} (thorough up to 60): 1-12 (thorough 1-22) ops of wait (around H, H+20%+1, tick boundaries or arbitrary), peer Heartbeat with/without TestReqID, peer application message, peer TestRequest, application send, then a final wait; random start phase within the second; non-trivial = observed for longer than H with at least 2 messages on the wire; distinct = distinct event-log hash',
+    real=_SESS_REAL + ['Session::heartbeat_service / handle_test_request / handle_heartbeat', 'Tickval clock reads (simulated)'], stub=_SESS_STUB, assumptions=_SESS_ASSUME + ['no clock jumps or skew (the statement does not quantify over them)', 'bounds include whole-second truncation and one supervision tick: silent for at most H+1.1 s; TestRequest within (H+H/5)+2.1 s of receive silence; timeout Logout within the same bound after an unanswered TestRequest', 'the statement is read as upper bounds: fix8 sends the timeout Logout one tick after the TestRequest, which satisfies the implication and is recorded as an observation, not a violation'],
+    level_text='seeded exploration of timelines; oracle: (a) never silent longer than H+tick, (b) receive silence > H+20% => TestRequest, (c) unanswered TestRequest => Logout and termination, (d) peer TestRequest answered by Heartbeat with the same TestReqID, (e) Heartbeat while a TestRequest is pending returns to continuous, (f) no timeout Logout without a preceding TestRequest or after a Heartbeat',
+    level_note='trusted: simulated clock, wire timestamps taken at the completing sendBytes')
+_p('C23', secs=(20, 300), runs=(100000, 10000000), mix=(4, 8),
+    title='Logon acceptance and CompID identity are enforced consistently',
+    technique='deterministic simulation: real Session::handle_logon in both roles against a scripted peer over the simulated socket, seeded configurations (CompIDs, enforcement, client list with/without IP restriction, ResetSeqNumFlag, HeartBtInt, stored control record); SessionID ==/!= enumerated directly (pure clause)',
+    rule='one evaluation = one seeded logon scenario (role, enforcement on/off, right/wrong TargetCompID, client list absent/listed/not listed/listed with right or wrong IP, ResetSeqNumFlag absent/N/Y, HeartBtInt 1..600, stored control record present/absent; initiator: response CompIDs mirror / sender differs / target differs / both) followed by a little traffic; every run also enumerates all 81 pairs of SessionIDs over 3 CompID values for ==/!=; non-trivial = every run; distinct = distinct event-log hash',
+    real=_SESS_REAL + ['Session::handle_logon, recover_seqnums, SessionID comparison'], stub=_SESS_STUB + ['peer IP address supplied by SimSock::peerAddress()'], assumptions=_SESS_ASSUME + ['no SessionConfig object (client list and flags are set through LoginParameters as sessionwrapper.hpp does)', 'the Logon MsgSeqNum sent by the peer is always the one the session expects (sequence recovery at logon is C20)'],
+    level_text='seeded exploration of logon configurations; oracle: acceptor reaches continuous exactly under the stated conditions and otherwise ends without sending a Logon, echoes HeartBtInt, resets both numbers on ResetSeqNumFlag=Y, uses recovered numbers otherwise; initiator with enforcement ends exactly for non-mirroring CompIDs; SessionID != is the negation of ==',
+    level_note='trusted: harness codec and scripted peer')
